@@ -72,6 +72,8 @@
 (*                      tangential projection (I - n n^T) of p'(X)         *)
 (*   ProductGradient    on product topologies the concatenated per-space   *)
 (*                      blocks give p'(X) (and B is block diagonal)        *)
+(*   CoarseMeasure      J of a geometry that lives on the topology of the   *)
+(*                      previous level (tail of the chain) is the same J    *)
 (*   PerSpace           per-space gradients of a separable geometry are the*)
 (*                      partial derivatives with respect to that space     *)
 (* Results only depend on x0, G, p: independence of parametrisation is the *)
@@ -356,9 +358,10 @@ ChildMaps(rt) ==
 (* meshes                                                                  *)
 (***************************************************************************)
 \* x0 = o + sum xi_k E[k]; C: the columns of the linear part of the chain from the coordinates of the element to the
-\* root coordinates (the coordinates of the unrefined element it descends from): the product of the child maps
-MkElemC(rt, o, E, C) == [ref |-> rt, o |-> o, E |-> E, C |-> C]
-MkElem(rt, o, E) == MkElemC(rt, o, E, IdCols(RefDim(rt)))
+\* root coordinates (the coordinates of the unrefined element it descends from): the product of the child maps;
+\* tl: the columns of the last child map alone (the tail of the chain relative to the topology of the previous level)
+MkElemC(rt, o, E, C, tl) == [ref |-> rt, o |-> o, E |-> E, C |-> C, tl |-> tl]
+MkElem(rt, o, E) == MkElemC(rt, o, E, IdCols(RefDim(rt)), IdCols(RefDim(rt)))
 Box1(a, b) == MkElem("L", IV(<<a>>), <<IV(<<b - a>>)>>)
 Box2(a, b) == MkElem("S", IV(a), <<IV(<<b[1] - a[1], 0>>), IV(<<0, b[2] - a[2]>>)>>)
 Box3(a, b) == MkElem("C", IV(a), <<IV(<<b[1] - a[1], 0, 0>>), IV(<<0, b[2] - a[2], 0>>), IV(<<0, 0, b[3] - a[3]>>)>>)
@@ -382,7 +385,7 @@ MeshSpaces(name) == CASE name = "prod" -> <<1, 1>> [] name = "prod3" -> <<1, 1, 
 X0(el, xi) == VAdd(el.o, LinComb(xi, el.E, Len(el.o)))
 BMat(el) == FromCols(el.E, Len(el.o))                     \* d x0 / d xi
 Children(el) == {MkElemC(el.ref, X0(el, c.off), TLCEval([k \in 1..Len(el.E) |-> LinComb(c.lin[k], el.E, Len(el.o))]),
-                              TLCEval([k \in 1..Len(el.E) |-> LinComb(c.lin[k], el.C, Len(el.o))])) : c \in ChildMaps(el.ref)}
+                              TLCEval([k \in 1..Len(el.E) |-> LinComb(c.lin[k], el.C, Len(el.o))]), c.lin) : c \in ChildMaps(el.ref)}
 ElemVerts(el) == {X0(el, xi) : xi \in LatPts(el.ref, 1)}
 FacetVerts(el, f) == {X0(el, FacetMap(f, eta)) : eta \in LatPts(f.ft, 1)}
 \* all facets of all elements, with their vertex sets (computed once)
@@ -442,6 +445,13 @@ InteriorRow(el, xi) ==
         cu |-> IF IsVec THEN CurlOf(g) ELSE <<>>,
         lap |-> IF N = M THEN LapField(X) ELSE <<>>,
         j2 |-> QDet(Gram(R, M)),
+        \* the measure of a geometry that LIVES ON THE TOPOLOGY OF THE PREVIOUS LEVEL (a discrete geometry in a basis of the
+        \* coarser mesh), evaluated on this element: _Jacobian differentiates to the tip target through
+        \* TransformCoords(target = coarser topology): (d geom / d parent coordinates) TransformLinear(target, source), the
+        \* linear part of the TAIL of the chain (spec mutant "whole-chain": of the whole chain to the root)
+        jc2 |-> LET Rp == MMul(R, QInv(FromCols(el.tl, M)), M)
+                    Tl == FromCols(IF GmMutant = "whole-chain" THEN el.C ELSE el.tl, M)
+                IN QDet(Gram(MMul(Rp, Tl, M), M)),
         sg |-> IF N = M THEN QSgn(QDet(R)) ELSE 0,
         nv |-> IF N = M + 1 THEN Cross(R) ELSE <<>>,
         \* the exterior normal with respect to the reference geometry x0 (function.normal(geom, refgeom), _ExteriorNormal)
@@ -685,6 +695,8 @@ PerSpace == (stage = "interior" /\ SepOn) =>
 ProductGradient == /\ (stage \in PointStages /\ N = M /\ Len(mesh.sp) > 1) => \A r \in res.rows : r.g = DField(r.X)
                    /\ Len(mesh.sp) > 1 => \A el \in mesh.elems : \A s \in 1..Len(mesh.sp) : \A t \in 1..Len(mesh.sp) :
                           s = t \/ \A i \in 1..mesh.sp[s] : \A j \in 1..mesh.sp[t] : BMat(el)[SpCols(mesh.sp, s)[i]][SpCols(mesh.sp, t)[j]][1] = 0
+\* the measure does not depend on the level of the topology the geometry lives on (independence of refinement)
+CoarseMeasure == stage = "interior" => \A r \in res.rows : r.jc2 = r.j2
 \* a field that lives on the boundary topology: its gradient with respect to the geometry agrees with p'(X) along every
 \* tangent of the facet (the normal component is not defined by the field)
 BoundaryFieldTangential == stage = "bfield" =>
